@@ -607,7 +607,7 @@ pub fn op_assign<B: Be>(mut doc: B, p: &Pointer, v: B) -> String {
                 if let (Err(a), Err(b)) = (&r, &r3) { law_fwd.ck(a == b, "pointer_method_gives_a_different_error"); }
             }
         }
-        law_fwd.ck(c == doc, "pointer_method_leaves_a_different_document");
+        law_fwd.ck(c.to_doc() == doc.to_doc(), "pointer_method_leaves_a_different_document");
     }
     o.law("law_locate", &law_locate);
     o.law("law_slack", &law_slack);
@@ -664,6 +664,8 @@ fn doc_remove(d: &mut Doc, path: &[Step]) -> bool {
 pub fn op_delete<B: Be>(mut doc: B, p: &Pointer) -> String {
     let mut o = Out::new();
     let old = doc.clone();
+    // value identity, not `==`: a toml float may be NaN (`nan != nan`), and `0.0 == -0.0` are different values
+    let same = |a: &B, b: &B| a.to_doc() == b.to_doc();
     let toks = split_enc(p.as_str());
     let r: Option<Option<B>> = guard(|| doc.delete(p));
     o.f("r", &fmt_delete_r(&r));
@@ -673,7 +675,7 @@ pub fn op_delete<B: Be>(mut doc: B, p: &Pointer) -> String {
         let mut slack = old.with_slack();
         let r2: Option<Option<B>> = guard(|| slack.delete(p));
         law_slack.ck(fmt_delete_r(&r2) == fmt_delete_r(&r), "result_depends_on_capacity");
-        law_slack.ck(slack == doc, "document_depends_on_capacity");
+        law_slack.ck(same(&slack, &doc), "document_depends_on_capacity");
     }
 
     let reference = ref_walk(&old, &toks);
@@ -685,12 +687,12 @@ pub fn op_delete<B: Be>(mut doc: B, p: &Pointer) -> String {
         None => law_agrees.fail("panic"),
         Some(None) => {
             law_agrees.ck(reference.is_err(), "none_although_pointer_resolves");
-            law_none_unchanged.ck(doc == old, "document_changed");
+            law_none_unchanged.ck(same(&doc, &old), "document_changed");
         }
         Some(Some(v)) => {
             match &reference {
                 Ok((node, path)) => {
-                    law_agrees.ck(v == *node, "returned_value_is_not_the_resolved_value");
+                    law_agrees.ck(same(v, node), "returned_value_is_not_the_resolved_value");
                     if !path.is_empty() {
                         let mut want = old.to_doc();
                         if doc_remove(&mut want, path) {
@@ -716,8 +718,8 @@ pub fn op_delete<B: Be>(mut doc: B, p: &Pointer) -> String {
                 Err(_) => law_agrees.fail("some_although_pointer_does_not_resolve"),
             }
             if toks.is_empty() {
-                law_root.ck(*v == old, "root_delete_did_not_return_the_document");
-                law_root.ck(doc == B::deleted_root(), "root_delete_left_something_else");
+                law_root.ck(same(v, &old), "root_delete_did_not_return_the_document");
+                law_root.ck(same(&doc, &B::deleted_root()), "root_delete_left_something_else");
             }
         }
     }
@@ -733,7 +735,7 @@ pub fn op_delete<B: Be>(mut doc: B, p: &Pointer) -> String {
         let mut c = old.clone();
         let r3: Option<Option<B>> = guard(|| p.delete(&mut c));
         law_fwd.ck(fmt_delete_r(&r3) == fmt_delete_r(&r), "pointer_method_gives_a_different_result");
-        law_fwd.ck(c == doc, "pointer_method_leaves_a_different_document");
+        law_fwd.ck(c.to_doc() == doc.to_doc(), "pointer_method_leaves_a_different_document");
     }
     o.law("law_root", &law_root);
     o.law("law_slack", &law_slack);
